@@ -23,18 +23,14 @@ def tla_set(xs, quote=True):
 def cover_walks(edges, maxlen=120):
     """edges: the transitions TLC printed, dicts {pre, post, step}.  Returns (walks, stats): every walk is a list of steps starting in the
     initial state; together they take EVERY transition (state, command) of the graph at least once."""
-    seen = set(); E = []
+    seen = {}; E = []
     adj = collections.defaultdict(list)
-    targets = set()
+    init = edges[0]["pre"]          # breadth-first search: the first state TLC expands is the initial state
     for e in edges:
         k = (e["pre"], json.dumps(e["step"]["cmd"], sort_keys=True))
-        if k in seen: continue
-        seen.add(k); adj[e["pre"]].append(len(E)); E.append(e); targets.add(e["post"])
-    inits = [u for u in adj if u not in targets]
-    if len(inits) != 1:
-        # the initial state may be re-entered; take the source of the first printed edge
-        inits = [edges[0]["pre"]]
-    init = inits[0]
+        if k not in seen: seen[k] = e
+    for k in sorted(seen):          # TLC's workers print in any order: sort, so that the behaviours are the same in every run
+        e = seen[k]; adj[e["pre"]].append(len(E)); E.append(e)
     parent = {init: None}; order = [init]; dq = collections.deque([init])
     while dq:
         u = dq.popleft()
@@ -102,4 +98,7 @@ def judge_rows(v, rows, pid, what, tag):
             if v.drift <= 3: vlib.log("DRIFT property=%s %s: %s" % (pid, what, (r.get("drift") or r.get("countdrift"))[0][:300]))
     s = [r for r in rows if r.get("summary")]
     if not s: raise vlib.MachineryError("%s: the harness wrote no summary" % what)
-    return s[0]
+    d = {"behaviours": 0, "followed": 0, "steps": 0, "drifted": 0, "expectations_compared": 0, "oracle_evaluations": 0, "messages_received": 0, "histories": 0, "commands": 0, "ops": {},
+         "traces_written": 0, "trace_lines": 0, "selected_node_checks": 0, "filtered_out_node_checks": 0, "index_mirror_checks": 0, "cases": 0}      # (a run ended by the watchdog has no counts)
+    d.update(s[0])
+    return d
